@@ -249,9 +249,14 @@ def dedupFilesBuggy (processed : List Name) : List DFile → List DFile
 
 def fileNames (fs : List DFile) : List Name := fs.map (·.name)
 
+/-- adding import names to the `missing` set unless present (or already missing) -/
+def growNames (present : List Name) : List Name → List Name → List Name
+  | m, [] => m
+  | m, d :: ds => if d ∈ present ∨ d ∈ m then growNames present m ds else growNames present (m ++ [d]) ds
+
 /-- `growMissingDescriptorSet`: imports of `fs` that are not present join `missing` (a set) -/
 def growMissing (fs : List DFile) (present : List Name) (missing : List Name) : List Name :=
-  (fs.flatMap (·.deps)).foldl (fun m d => if d ∈ present || d ∈ m then m else m ++ [d]) missing
+  growNames present missing (fs.flatMap (·.deps))
 
 /-- `shrinkMissingDescriptorSet` -/
 def shrinkMissing (fs : List DFile) (missing : List Name) : List Name :=
@@ -265,6 +270,16 @@ structure Bfs where
   missing : List Name
   deriving Repr
 
+/-- one round after its batch succeeded with `got`: append only the files not present, update
+    `present`, shrink and grow `missing` -/
+def nextState (dedup : List DFile → List DFile) (h : History) (got : List DFile) (s : Bfs) : Bfs :=
+  let dep := dedup got
+  let present := s.present ++ fileNames dep
+  { hist := h
+    descriptors := s.descriptors ++ dep.filter (fun f => f.name ∉ s.present)
+    present := present
+    missing := growMissing dep present (shrinkMissing dep s.missing) }
+
 /-- the `for i := 0; i < RecursionLimit && len(missing) > 0; i++` loop; `fuel` = rounds left.
     `dedup` is the de-duplication used by `fileDescriptors`. -/
 def bfsLoop (dedup : List DFile → List DFile) (pol : Policy) (sched : Sched) :
@@ -273,18 +288,12 @@ def bfsLoop (dedup : List DFile → List DFile) (pol : Policy) (sched : Sched) :
   | fuel + 1, s =>
     if s.missing.isEmpty then (s.hist, .ok s.descriptors)
     else
-      let order := sched s.hist s.missing
-      match execBatch pol s.hist (order.map Request.filename) with
+      match execBatch pol s.hist ((sched s.hist s.missing).map Request.filename) with
       | (h, .error e) => (h, .error e)
       | (h, .ok got) =>
-        let dep := dedup got
-        let descriptors := s.descriptors ++ dep.filter (fun f => f.name ∉ s.present)
-        let present := s.present ++ fileNames dep
-        let missing := shrinkMissing dep s.missing
-        if !missing.isEmpty then (h, .error ⟨codeUnknown⟩)
-        else bfsLoop dedup pol sched fuel
-          { hist := h, descriptors := descriptors, present := present,
-            missing := growMissing dep present missing }
+        -- "server didn't provide file descriptors …" when something asked for is still missing
+        if !(shrinkMissing (dedup got) s.missing).isEmpty then (h, .error ⟨codeUnknown⟩)
+        else bfsLoop dedup pol sched fuel (nextState dedup h got s)
 
 /-- `retrieveDependencies` -/
 def retrieveDependencies (dedup : List DFile → List DFile) (cfg : Cfg) (pol : Policy) (sched : Sched)
